@@ -53,6 +53,13 @@ CHECKS = {
    design_ref="DESIGN.md section 6 (C14)",
    note="numpy backend only (funsor's own inverse-CDF sampler). The reduce/Integrate identities are claimed for unit-mass Deltas only, as the property states. Mass identities use rtol 1e-6; support and range are exact.",
    technique="deterministic simulation: owned random stream with injected boundary draws; per-draw exact identities; prefix/world determinism"),
+ "C16": dict(
+   engine="dispatch",
+   category="exploration",
+   text="Every PartialDispatcher.partial_call made while sessions execute generated programs (all interpretation settings) is monitored: from the dispatcher's registered signatures alone the set of matching patterns is recomputed and the rule that runs must belong to a pattern at least as specific as every other matching one. Sessions interleave the work with dispatch-cache drops, lru_cache drops, collections (which kill and re-create parametrised classes), late registration of unrelated rules and replays, and the map (dispatcher, canonical argument-type tuple) -> rule must stay a function within the run, across sessions that use programs in a different first-use order, and across hash worlds (merged by the runner). Each dispatcher's registry is rebuilt twice in seeded permuted registration order and must resolve every observed tuple to the same rule; argument tuples are synthesised for registered term patterns by specialising positions to pool types. On the reached type pool: reflexivity on all types and transitivity on all triples (boolean matrix product) for issubclass-as-used-for-matching and for deep_issubclass; every visited term is a deep-instance of its own precise type and of every one-parameter generalisation; deep_type(frozenset) is independent of element order.",
+   design_ref="DESIGN.md section 6 (C16)",
+   note="Specificity = multipledispatch.conflict.supercedes; matching = issubclass on wrapped types. Synthesised tuples are generated for interpretation registries (patterns over a term's arguments), not for op dispatchers on raw arrays, where numpy scalar types inherit from both float and numpy.generic.",
+   technique="deterministic simulation: monitored dispatch under seeded cache-drop/GC/late-registration histories; cross-world and permuted-registration agreement; order axioms on reached types"),
  "C17": dict(
    engine="ctxstack",
    category="fault_enumeration",
@@ -94,6 +101,7 @@ def main():
             {"name": "confluence+memo", "path": "checks/c03.py", "serves_properties": ["C03"], "kind_free_text": "per-call interpretation scheduler, between-event faults, Memoize model"},
             {"name": "intern", "path": "checks/c07.py", "serves_properties": ["C07"], "kind_free_text": "history simulator over intern tables with scheduled GC, id recycling, pickle; reference map"},
             {"name": "rng", "path": "checks/c14.py", "serves_properties": ["C14"], "kind_free_text": "random-stream seam with boundary-draw injection; dense reference model for Gaussian samples"},
+            {"name": "dispatch", "path": "checks/c16.py", "serves_properties": ["C16"], "kind_free_text": "dispatch monitor + history/world/registration-order independence + order axioms"},
             {"name": "ctxstack", "path": "checks/c17.py", "serves_properties": ["C17"], "kind_free_text": "stack model + exception injection at internal calls (sys.monitoring)"},
         ],
         "checks": checks,
